@@ -57,6 +57,9 @@ type env struct {
 
 var otherFS string
 
+// tmpSuffix is set per scenario by the generator (alias "tmpsibling")
+var tmpSuffix = ".tmp"
+
 // setup builds the scenario on disk and returns the paths.
 func setup(s scenario, base string) (*env, bool) {
 	e := &env{root: filepath.Join(base, "a")}
@@ -91,6 +94,15 @@ func setup(s scenario, base string) (*env, bool) {
 		os.WriteFile(parent, []byte("i am a file"), 0o644)
 	}
 	e.dst = filepath.Join(parent, "dst.bin")
+	if strings.HasPrefix(s.alias, "tmpsibling:") {
+		tmpSuffix = strings.TrimPrefix(s.alias, "tmpsibling:")
+		s.alias = "tmpsibling"
+		if s.dest == "existing" {
+			e.dstData = content(777, 0x11)
+			os.WriteFile(e.dst, e.dstData, 0o644)
+			e.dstExisted = true
+		}
+	}
 	switch s.alias {
 	case "same":
 		e.dst = e.src
@@ -108,6 +120,16 @@ func setup(s scenario, base string) (*env, bool) {
 			return nil, false
 		}
 		if os.Link(e.src, e.dst) != nil {
+			return nil, false
+		}
+	case "tmpsibling":
+		// the source is named like the scratch file a "write aside, then rename" copy would use
+		if !s.srcThere || s.parent != "ok" || s.crossFS {
+			return nil, false
+		}
+		os.Remove(e.src)
+		e.src = e.dst + tmpSuffix
+		if os.WriteFile(e.src, e.srcData, 0o644) != nil {
 			return nil, false
 		}
 	case "srclink":
@@ -258,6 +280,16 @@ func scenarios() []scenario {
 							out = append(out, scenario{fn: fn, size: size, dest: dest, alias: "none", parent: parent, srcThere: src, crossFS: otherFS != "", exdev: otherFS == ""})
 						}
 					}
+				}
+			}
+			if size == 1 {
+				for _, suf := range []string{".tmp", ".bak", "~", ".part", ".new", ".swp", ".copy"} {
+					out = append(out, scenario{fn: fn, size: size, dest: "absent", alias: "tmpsibling:" + suf, parent: "ok", srcThere: true})
+					out = append(out, scenario{fn: fn, size: size, dest: "existing", alias: "tmpsibling:" + suf, parent: "ok", srcThere: true})
+				}
+				if fn == "move" && otherFS != "" {
+					// the destination is, on the other file system, a symbolic link back to the source
+					out = append(out, scenario{fn: fn, size: size, dest: "absent", alias: "symlink", parent: "ok", srcThere: true, crossFS: true})
 				}
 			}
 			for _, alias := range []string{"same", "dotslash", "symlink", "hardlink", "srclink"} {
